@@ -307,3 +307,16 @@ Print Assumptions C02_quic_client_hello_frame.
 
 Example C02_grease_is_no_quic_suite : suite_choice [0x0a; 0x0a] = None /\ suite_choice [0xda; 0xda] = None /\ suite_choice [0x13; 0x01] <> None.
 Proof. vm_compute. repeat split; discriminate. Qed.
+
+(* Retry: the session forgets every key and the whole TLS state (the repeated ClientHello starts from empty streams: the premise of
+   C02_quic_client_hello_frame holds again; the next Initial packet derives the Initial keys from its own destination connection ID) and
+   keeps the packet-number spaces (RFC 9000 17.2.5.3), the connection IDs and the output collected so far *)
+Theorem C02_retry_resets : forall C keylog ftable s pk, qp_type pk = QRetry ->
+  exists s', process_qpacket C keylog ftable s pk = Ok s' /\
+    qs_tls s' = qtls0 /\ qs_initial s' = None /\ qs_handshake s' = None /\ qs_app s' = None /\ qs_early s' = None /\ qs_cipher s' = None /\ qs_hash s' = None /\
+    qs_hp s' = hp_none /\ qs_pn s' = qs_pn s /\ qs_output s' = qs_output s /\ qs_client_cids s' = qs_client_cids s /\ qs_server_cids s' = qs_server_cids s /\
+    qs_version s' = qs_version s.
+Proof. exact retry_resets. Qed.
+Print Assumptions C02_retry_resets.
+Example C02_fresh_tls_state_streams : qt_client qtls0 = [cs0; cs0; cs0; cs0] /\ qt_server qtls0 = [cs0; cs0; cs0; cs0].
+Proof. split; reflexivity. Qed.
